@@ -316,6 +316,20 @@ type ECollideThenDeeper struct { // ambiguous at depth 2 hides depth 3 as well
 	EValNoTag
 	ELevel1
 }
+type ELevel1t struct {
+	EValTag1
+	Duo int64
+}
+type ECollideThenDeeperTagged struct { // a deeper tagged field does not win either
+	EVal
+	EValNoTag
+	ELevel1t
+}
+type ELevel1p struct {
+	*ELevel2
+	Duo int64
+}
+type EDeepPtr struct{ *ELevel1p } // two levels of embedded pointers
 type EDeep struct{ ELevel1 } // two levels of embedding (val at depth 3, duo at depth 2)
 type EShallow struct {      // val at depth 2 hides val at depth 3
 	ELevel1
@@ -418,6 +432,8 @@ func init() {
 	add("EUntaggedFirst", EUntaggedFirst{}, "VerOneData", air.VerOneData_TypeID, sz(8, 0), 1, true)
 	add("EThreeNoTags", EThreeNoTags{}, "VerOneData", air.VerOneData_TypeID, sz(8, 0), 1, true)
 	add("ECollideThenDeeper", ECollideThenDeeper{}, "VerTwoData", air.VerTwoData_TypeID, sz(16, 0), 1, true)
+	add("ECollideThenDeeperTagged", ECollideThenDeeperTagged{}, "VerTwoData", air.VerTwoData_TypeID, sz(16, 0), 1, true)
+	add("EDeepPtr", EDeepPtr{}, "VerTwoData", air.VerTwoData_TypeID, sz(16, 0), 1, true)
 	add("EPtr", EPtr{}, "VerTwoData", air.VerTwoData_TypeID, sz(16, 0), 1, true)
 	add("EOmit", EOmit{}, "VerTwoData", air.VerTwoData_TypeID, sz(16, 0), 1, true)
 	add("EDeep", EDeep{}, "VerTwoData", air.VerTwoData_TypeID, sz(16, 0), 1, true)
